@@ -531,6 +531,27 @@ fn op_step(hdr: Vec<u8>, recs: Vec<Vec<u8>>, cap: usize) -> String {
     out.join(" ; ")
 }
 
+/// re-serialise all sections as the library exposes them: header line, data lines, one blank line
+fn op_reser(src: Vec<Ev>) -> String {
+    let mut reader = Reader::new(Script::new(src));
+    let mut out = String::new();
+    for r in reader.sections() {
+        match r {
+            Err(_) => return "err".into(),
+            Ok(s) => {
+                out.push_str(&s.header().to_string());
+                out.push('\n');
+                for d in s.data().iter() {
+                    out.push_str(&d.to_string());
+                    out.push('\n');
+                }
+                out.push('\n');
+            }
+        }
+    }
+    format!("ok {}", hex(out.as_bytes()))
+}
+
 fn dict_str(d: &machine::ChromosomeDictionary) -> String {
     let mut v: Vec<String> = d.iter().map(|(k, s)| format!("{}:{}", hex(k.as_bytes()), s)).collect();
     v.sort();
@@ -680,6 +701,7 @@ fn handle(line: &str) -> String {
                 _ => "badreq".into(),
             }
         }
+        ["reser", src] => src_of(src).map(op_reser).unwrap_or("badreq".into()),
         ["build", src] => src_of(src).map(|s| build_str(&build(s))).unwrap_or("badreq".into()),
         ["liftover", src, ivs] => src_of(src).map(|s| op_liftover(s, ivs)).unwrap_or("badreq".into()),
         ["ops", src, ops] => src_of(src).map(|s| op_ops(s, ops)).unwrap_or("badreq".into()),
